@@ -766,6 +766,8 @@ func (in *Interp) obligation(safe *Term, kind string) {
 	}
 	in.sh.stats.add("obligations", 1)
 	if in.tryDepth > 0 {
+		// inside vh.Try / a recovering frame the run-time check is not a violation: both outcomes are explored
+		in.sh.stats.add("discharged", 1)
 		if !in.branch(safe) {
 			panic(&goPanic{val: IfaceV{T: types.Typ[types.String], V: in.strConst("runtime error: " + kind)}, msg: "runtime error: " + kind, site: in.siteString()})
 		}
